@@ -478,6 +478,26 @@ func stress(rng interface{ Intn(int) int }) {
 			}
 		}
 	}()
+	// configuration reloads while traffic is served: further instances (other routers, other excluded prefixes, other limits) are
+	// built in the same process; they share nothing with the serving instance
+	reloadDone := make(chan struct{})
+	go func() {
+		defer close(reloadDone)
+		defer func() { recover() }()
+		for n := 0; n < 40; n++ {
+			select {
+			case <-stop:
+				return
+			default:
+			}
+			cfg := baseConfig(p)
+			cfg.ExcludedURLs = []string{fmt.Sprintf("/reload-%d", n), "/u1"}
+			cfg.RateLimit = 10 + n
+			cfg.Headers = []oidc.TemplatedHeader{{Name: fmt.Sprintf("X-Reload-%d", n), Value: "{{.Claims.sub}}"}}
+			oidc.New(nil, &down{}, cfg, "verif")
+			time.Sleep(3 * time.Millisecond)
+		}
+	}()
 	for u := 0; u < users; u++ {
 		wg.Add(1)
 		go func(u int) {
@@ -541,6 +561,7 @@ loop:
 	}
 	close(stop)
 	<-hkDone
+	<-reloadDone
 	// ---- first visits in parallel: every login redirect's state and nonce are the ones in the cookie of that very response
 	{
 		sm, _ := oidc.NewSessionManager(sessKey, false, oidc.NewLogger("none"))
